@@ -42,6 +42,7 @@ DECIDING = {
     "windows_observed": "1000 s observation windows after the raise",
     "faults_with_siblings_midway": "faults striking while a sibling was mid-startup",
     "teardown_registrations_checked": "registrations before the failure torn down with the caller's context",
+    "inflight_generation_interrupted": "start-up aborted while a resource factory was generating for a component",
 }
 ASSUMPTIONS = [
     "exactly one component fails, with an Exception; components do not shield themselves from cancellation nor raise while being cancelled",
@@ -56,13 +57,107 @@ def plan(tier: str) -> dict[str, Any]:
 
 def gen_case(idx: int, seed: int, tier: str) -> Any:
     rng = case_rng(PROPERTY, seed, idx)
+    if idx % 5 == 4:
+        return {"kind": "inflight", "backend": rng.choice(["asyncio", "trio"]), "abort": rng.choice(["failure", "timeout"]),
+                "gen_time": rng.choice([0.5, 1, 2]), "consumer_delay": rng.choice([0, 0.5]), "fail_at": rng.choice([0.25, 0.75, 1.25, 3.25])}
     tree = e2.gen_tree(rng, max_depth=3, max_fanout=3, max_nodes=8, wait_heavy=False)
     return {"backend": rng.choice(["asyncio", "trio"]), "sched_seed": rng.randrange(1 << 30), "shuffle": rng.random() < 0.5, "tree": tree,
             "exc_seed": rng.randrange(1 << 30), "only": None}
 
 
+async def inflight_scenario(case: dict[str, Any], out: dict[str, Any]) -> None:
+    """A resource factory is in the middle of generating a resource for one component when start-up is aborted (a sibling
+    fails, or the timeout strikes).  Afterwards the surrounding context must still be usable: the resource can be requested
+    again and the context can be left."""
+    import anyio
+    from asphalt.core import Component, ComponentStartError, Context, add_resource_factory, get_resource, start_component
+
+    log: list[str] = out["log"]
+    calls = [0]
+
+    class Res:
+        pass
+
+    async def factory() -> Res:
+        calls[0] += 1
+        log.append(f"factory call {calls[0]} begins at {anyio.current_time()}")
+        await anyio.sleep(case["gen_time"])
+        return Res()
+
+    class Consumer(Component):
+        async def start(self) -> None:
+            if case["consumer_delay"]:
+                await anyio.sleep(case["consumer_delay"])
+            self.res = await get_resource(Res)
+            log.append("consumer got the resource")
+
+    class Failing(Component):
+        async def start(self) -> None:
+            await anyio.sleep(case["fail_at"])
+            if case["abort"] == "failure":
+                log.append("sibling fails")
+                raise RuntimeError("injected sibling failure")
+            await anyio.sleep(1000)
+
+    class Root(Component):
+        def __init__(self) -> None:
+            self.add_component("consumer", Consumer)
+            self.add_component("failing", Failing)
+
+        async def prepare(self) -> None:
+            add_resource_factory(factory, types=[Res])
+
+    outcome: dict[str, Any] = out
+    async with Context() as ctx:
+        t0 = anyio.current_time()
+        try:
+            await start_component(Root, timeout=case["fail_at"] + 0.125 if case["abort"] == "timeout" else None)
+            outcome["start"] = "returned"
+        except (ComponentStartError, TimeoutError) as e:
+            outcome["start"] = type(e).__name__
+        outcome["raised_at"] = anyio.current_time() - t0
+        got = None
+        with anyio.move_on_after(100) as scope:
+            got = await ctx.get_resource(Res)
+        outcome["later_lookup"] = "timed out" if scope.cancelled_caught else type(got).__name__
+        with anyio.move_on_after(100) as scope2:
+            again = await ctx.get_resource(Res)
+            outcome["same_object"] = again is got
+    outcome["left"] = True
+
+
+def run_inflight(case: dict[str, Any]) -> dict[str, Any]:
+    from vkit.trace import describe_exc
+    from vkit.vtime import VirtualDeadlock, run_virtual
+
+    out: dict[str, Any] = {"log": []}
+    V: list[dict[str, Any]] = []
+    try:
+        run_virtual(case["backend"], inflight_scenario, case, out)
+    except VirtualDeadlock as e:
+        V.append({"key": "fail-context-unusable", "msg": f"after the aborted start-up the surrounding context could not be used / left: {e}", "witness": {"case": case, **out}})
+    except BaseException as e:
+        V.append({"key": "fail-crash", "msg": f"scenario crashed: {describe_exc(e)}", "witness": {"case": case, **out}})
+    in_flight = case["consumer_delay"] < case["fail_at"] < case["consumer_delay"] + case["gen_time"]
+    c = {"inflight_scenarios": 1, "inflight_generation_interrupted": int(in_flight)}
+    if not V:
+        want = "TimeoutError" if case["abort"] == "timeout" else "ComponentStartError"
+        if out.get("start") != want:
+            V.append({"key": "fail-wrong-exception", "msg": f"start_component: {out.get('start')}, expected {want}", "witness": {"case": case, **out}})
+        if out.get("later_lookup") != "Res":
+            V.append({"key": "fail-context-unusable", "msg": f"requesting the resource from the surrounding context after the aborted start-up: {out.get('later_lookup')}",
+                      "witness": {"case": case, **out}})
+        elif out.get("same_object") is not True:
+            V.append({"key": "fail-context-unusable", "msg": "two lookups after the aborted start-up returned different objects", "witness": {"case": case, **out}})
+    return {"violations": V, "sig": ("inflight", tuple(sorted(case.items()))), "nontrivial": in_flight, "counters": c,
+            "sample": {"case": case, "log": out["log"], "outcome": {k: v for k, v in out.items() if k != "log"}} if in_flight and case["fail_at"] == 0.75 else None}
+
+
 def run_case(case: Any) -> dict[str, Any]:
     import random
+
+    if case.get("kind") == "inflight":
+        return run_inflight(case)
 
     rng = random.Random(case["exc_seed"])
     tree = case["tree"]
@@ -72,7 +167,7 @@ def run_case(case: Any) -> dict[str, Any]:
     sigs = []
     variants: list[dict[str, Any]] = []
     for f in e2.fault_positions(tree):
-        variants.append({"fault": {**f, "exc": rng.choice(ORDINARY_EXC_KINDS + ["Group"])}, "timeout": rng.choice([None, 1e6])})
+        variants.append({"fault": {**f, "exc": rng.choice(ORDINARY_EXC_KINDS + ["Group", "StartError"])}, "timeout": rng.choice([None, 1e6])})
     for t in e2.timeout_positions(tree):
         variants.append({"timeout": t})
     if case.get("only") is not None:
